@@ -240,7 +240,8 @@ func refTree(c *core.Ctx) *core.N {
 		o.FunnyNames = funnyOK
 	}
 	o.InnerNames = 0
-	o.Lengths = 1
+	// branch lengths: all present and positive, or with absent ones, exact zeros (internal branches too), or none
+	o.Lengths = []int{1, 1, 2, 3, 3, 0}[g.Intn(6)]
 	o.Supports = 2
 	if g.Chance(0.5) {
 		o.Multif = 0
@@ -392,6 +393,20 @@ func bootTree(c *core.Ctx, ref *core.N) *core.N {
 				nni(g, b)
 			} else {
 				contract(g, b)
+			}
+		}
+	}
+	if g.Chance(0.4) {
+		// lengths of its own on the internal branches: exactly 0 (a branch of length 0 is still a branch), absent, others
+		nodes, _ := innerNodes(b)
+		for _, v := range nodes {
+			switch r := g.Intn(10); {
+			case r < 4:
+				v.E.Len = 0
+			case r < 6:
+				v.E.Len = -1
+			case r < 8:
+				v.E.Len = float64(1+g.Intn(40)) / 8
 			}
 		}
 	}
